@@ -170,10 +170,11 @@ PROPS["C18"] = dict(
 )
 
 PROPS["C06"] = dict(
-    inject=[("src/bigint/convert.rs", "c06/parse.rs"), ("src/biguint/convert.rs", "c06/radix.rs"), ("src/bigint.rs", "c06/fmt.rs")],
-    kani=[dict(filter_q="c06_q_", filter_t=["c06_q_", "c06_t_"], jobs=14, timeout_q=240, timeout_t=900)],
+    inject=[("src/bigint/convert.rs", "c06/parse.rs"), ("src/biguint/convert.rs", "c06/radix.rs"), ("src/bigint.rs", "c06/fmt.rs"), ("src/biguint/convert.rs", "c15/utf8.rs")],
+    kani=[dict(filter_q=["c06_q_", "c15_q_ascii_mapping"], filter_t=["c06_q_", "c06_t_", "c15_q_ascii_mapping", "c15_t_ascii"], jobs=14, timeout_q=240, timeout_t=900)],
     functions=["Display/Binary/Octal/LowerHex/UpperHex for BigInt (arguments handed to Formatter::pad_integral)", "from_radix_be/from_radix_le (validation, empty input, value)", "from_radix_digits_be (single chunk)", "from_bitwise_digits_le / from_inexact_bitwise_digits_le",
-               "to_radix_le -> to_bitwise_digits_le / to_inexact_bitwise_digits_le", "get_radix_base / get_half_radix_base tables (all 247 radices)", "radix range assertions of from_str_radix, from_radix_*, to_str_radix"],
+               "to_radix_le -> to_bitwise_digits_le / to_inexact_bitwise_digits_le", "get_radix_base / get_half_radix_base tables (all 247 radices)", "radix range assertions of from_str_radix, from_radix_*, to_str_radix",
+               "to_str_radix (BigUint/BigInt wrappers: reversal, '-' sign) and to_str_radix_reversed (digit -> ASCII mapping for all radices) with the digit production under a recorder/contract"],
     bounds_quick="digit-vector input: every digit string of length 0..3 for radices {10,16,256,3,255,8} incl. digits >= radix (None) and both byte orders; single-chunk Horner for 3/5/2 digits of radix 10/36/255; "
                  "power-of-two radices 2,8,16,32,256 (more thorough): output digits = bit groups of every 1..2-digit value, input of 9..22 digits; the compiled radix tables for ALL radices 3..255; out-of-range radices panic",
     outside="TEXT PARSING AS LANGUAGE MEMBERSHIP (from_str_radix / FromStr / parse_bytes on symbolic strings) is NOT decided: even one symbolic byte of a 1-character string exceeds 240 s (three thorough-tier attempts are kept and "
@@ -245,7 +246,8 @@ PROPS["C15"] = dict(
                "__add2 / sub2 / AddAssign / SubAssign caller-side slicing under CBMC pointer checks (exact-fit allocations)", "to_str_radix_reversed -> String::from_utf8_unchecked", "gen_biguint (u64 buffer viewed as u32 words)"],
     bounds_quick="asm loops: inductive address-set obligation for any block count + bounded runs of 1..3 blocks (6 thorough); callers: the C01 kernel/Vec shapes up to 11 digits with CBMC's pointer, bounds and "
                  "alignment checks on (the asm is replaced by raw-pointer models touching exactly the proven address set); div_wide precondition at every call of the single-digit loops (1..3 digits); "
-                 "gen_biguint's reinterpreting slice for 9 bit sizes; the ASCII-only-output harnesses (to_str_radix_reversed, concrete radices, <= 16-bit values) are thorough-tier ATTEMPTS (> 12 min each)",
+                 "gen_biguint's reinterpreting slice for 9 bit sizes; ASCII-only output: the digit -> byte mapping of to_str_radix_reversed for EVERY radix 2..=36 and every digit value below the radix "
+                 "(digit production to_radix_le under contract: digits < radix, which the C06 digit-vector harnesses decide for power-of-two radices); end-to-end ASCII harnesses on <= 16-bit values are thorough-tier ATTEMPTS (> 12 min each)",
     outside="what the register allocator does with an `in(reg)` operand that the template decrements (advisory lint, not a verdict); to_str_radix bytes for values above 8 bits (the digit loop is 64 divisions by a symbolic radix); "
             "div_wide calls inside the Knuth-D core (guarded by `a0 < b0` - by reading, not by the solver)",
     trusted=STUBS_ADDSUB + ["x86 ISA model of the asm engine (mov/adc/sbb/inc/dec/jnz/setc/clc/div); Rust-level disjointness of the &mut and & operand slices", "contract stub: div_wide (precondition asserted)",
